@@ -58,6 +58,9 @@ SCEN = {
     'UpgS': lambda inv=(): sc('MC_UpgS', 4, 5, inv),
     'UpgC': lambda inv=(): sc('MC_UpgC', 4, 5, inv),
     'ConnWinS': lambda inv=(): sc('MC_ConnWinS', 4, 6, inv),
+    'ConnOutS': lambda inv=(): sc('MC_ConnOutS', 4, 5, inv),
+    'TableS': lambda inv=(): sc('MC_TableS', 4, 5, inv),
+    'AltNoValC': lambda inv=(): sc('MC_AltNoValC', 4, 5, inv),
     'QuietS': lambda inv=(): sc('MC_QuietS', 4, 6, inv),
     'QuietC': lambda inv=(): sc('MC_QuietC', 4, 6, inv),
 }
@@ -74,13 +77,13 @@ def scen(names, inv):
 PROPS = {
     'C01': {'scenarios': scen('Pair1', ['P_C01_DeliveredSendsAccepted', 'RaisingCallEmitsNothing']) + [sc('MC_Pair2', 5, 7, ['P_C01_DeliveredSendsAccepted', 'RaisingCallEmitsNothing'])],
             'lens': [(ALL_PUBLIC + ['z'], ANY)]},
-    'C02': {'scenarios': scen('Pair1 LifeS LifeC MiscC FrameS BigC BigS', ['P_C02_FramesWithinLimits', 'RaisingCallEmitsNothing']),
-            'lens': [(['o'], ANY), (['q.mof', 'z.hp'], ANY)]},
-    'C03': {'scenarios': scen('FlowS SetC PushS', ['P_C03_SendWithinWindows', 'P_C03_WindowsBounded']),
+    'C02': {'scenarios': scen('Pair1 LifeS LifeC MiscC FrameS BigC BigS PushS', ['P_C02_FramesWithinLimits', 'RaisingCallEmitsNothing']),
+            'lens': [(['o'], ANY), (['q.mof', 'z.hp', 'z.streams.mof'], ANY)]},
+    'C03': {'scenarios': scen('FlowS SetC PushS ConnOutS', ['P_C03_SendWithinWindows', 'P_C03_WindowsBounded']),
             'lens': [(['q.lw', 'z.ow', 'z.streams.ow'], ANY), (['r', 'o'], S('call:data')), (['r', 'e'], S('frame:WU'))]},
     'C04': {'scenarios': scen('FlowS CloseS PushC ConnWinS', ['P_C04_InboundDataExactlyAtWindow', 'P_C04_RemoteWindowIsAdvertised']),
             'lens': [(['q.rw', 'z.iw', 'z.streams.iw'], ANY), (['r', 'o', 'e'], S('frame:DATA', 'call:inc', 'call:ack'))]},
-    'C05': {'scenarios': scen('FlowS StallS', ['P_C05_AutoUpdateWithinBounds', 'P_C05_NoStall']),
+    'C05': {'scenarios': scen('FlowS StallS PushC', ['P_C05_AutoUpdateWithinBounds', 'P_C05_NoStall']),
             'lens': [(['r', 'o', 'q.rw', 'z.iw', 'z.streams.iw'], S('call:ack')), (['q.rw', 'z.iw', 'z.streams.iw'], S('frame:DATA', 'frame:SET'))]},
     'C06': {'scenarios': scen('LifeS LifeC PushC', GENERIC + ['P_C06_StreamStatesAreRfcStates']),
             'lens': [(['r', 'o', 'e'] + STATE_FSM, ANY)]},
@@ -92,11 +95,13 @@ PROPS = {
             'lens': [(['q.nx', 'z.hiIn', 'z.hiOut', 'z.closed', 'z.streams.by'], ANY), (['r', 'o', 'e'], S('call:hdr', 'call:push', 'call:next', 'frame:HEADERS', 'frame:PP', 'frame:PRIO'))]},
     'C10': {'scenarios': scen('SetC SetS LifeS PushS', ['P_C10_OutboundWithinPeerLimit']),
             'lens': [(['r'], S('call:oin', 'call:oout')), (['r', 'o', 'e'], S('call:hdr', 'frame:HEADERS')), (['z.streams.st', 'z.streams', 'z.rs', 'z.ls'], ANY)]},
-    'C11': {'scenarios': scen('SetC SetS', ['P_C11_PeerSettingsAckedOnce']) + [only('thorough', 'MC_SetEnumS', 3, ['P_C11_PeerSettingsAckedOnce'])],
-            'lens': [(['r', 'o', 'e', 'z.ls', 'z.rs', 'q.mof', 'q.mif', 'z.hdrCap'], S('call:set', 'frame:SET')), (['z.ls', 'z.rs'], ANY)]},
+    'C11': {'scenarios': scen('SetC SetS PushS TableS', ['P_C11_PeerSettingsAckedOnce']) + [only('thorough', 'MC_SetEnumS', 3, ['P_C11_PeerSettingsAckedOnce'])],
+            # "applied at once / enforced from the acknowledgement": the consumers of a setting belong to the property
+            'lens': [(['r', 'o', 'e', 'z.ls', 'z.rs', 'q.mof', 'q.mif', 'q.lw', 'q.rw', 'z.hdrCap', 'z.hp', 'z.ow', 'z.streams.ow',
+                       'z.streams.iw', 'z.streams.mof'], S('call:set', 'frame:SET')), (['z.ls', 'z.rs'], ANY)]},
     'C12': {'scenarios': scen('SetS SetC CloseS PushS', ['P_C12_SettingsValidation']) + [sc('MC_SetEnumS', 2, 3, ['P_C12_SettingsValidation'])],
             'lens': [(['r', 'o', 'e', 'q.lw', 'q.rw', 'z.streams.ow', 'z.streams.iw', 'z.ow'], S('call:set', 'frame:SET'))]},
-    'C13': {'scenarios': scen('Pair1 HdrOutC HdrOutS PushS', ['P_C13_CleanSendsDecode']),
+    'C13': {'scenarios': scen('Pair1 HdrOutC HdrOutS PushS TableS', ['P_C13_CleanSendsDecode']),
             'lens': [(['o', 'r'], S('call:hdr', 'call:push')), (['r', 'e'], S('dlv')), (['z.hp'], ANY)]},
     'C14': {'scenarios': scen('HdrOutC HdrOutS Pair1', ['P_C14_EmittedBlocksConformant'])
             + [sc('MC_HdrEnumOutC', 2, 2, ['P_C14_EmittedBlocksConformant']), sc('MC_HdrEnumOutS', 2, 2, ['P_C14_EmittedBlocksConformant']),
@@ -126,13 +131,13 @@ PROPS = {
     'C23': {'scenarios': scen('MiscC MiscS', ['P_C23_PriorityChangesNothing']),
             'lens': [(['r', 'o', 'e'], S('call:prio', 'frame:PRIO')), (['r', 'o', 'e'], S('call:hdr', 'frame:HEADERS')),
                      (['z.streams', 'z.closed', 'z.ow', 'z.iw'], S('call:prio', 'frame:PRIO'))]},
-    'C24': {'scenarios': scen('MiscC MiscS', ['P_C24_AltSvcRules']),
+    'C24': {'scenarios': scen('MiscC MiscS AltNoValC', ['P_C24_AltSvcRules']),
             'lens': [(['r', 'o', 'e'], S('call:alt', 'frame:ALT')), (['z.streams.auth'], ANY)]},
     'C25': {'scenarios': scen('UpgPair UpgS UpgC', ['P_C25_UpgradeHandsOver', 'RaisingCallEmitsNothing']),
             'lens': [(ALL_PUBLIC + STATE_FSM + ['z.rs', 'z.ls', 'z.hiIn', 'z.hiOut', 'z.streams.ow', 'z.ow'], ANY)]},
     'C26': {'scenarios': scen('MiscC MiscS CloseS', ['P_C26_PingAnsweredOnce']),
             'lens': [(['r', 'o', 'e'], S('call:ping', 'frame:PING'))]},
-    'C27': {'scenarios': scen('CloseS MiscS MiscC LifeS HdrInS PushC RawS', ['P_C27_ClosedMemoryBounded', 'P_C27_NoStateForNonOpeningFrames']),
+    'C27': {'scenarios': scen('CloseS MiscS MiscC LifeS HdrInS PushC RawS SetS TableS', ['P_C27_ClosedMemoryBounded', 'P_C27_NoStateForNonOpeningFrames']),
             'lens': [(['z.streams', 'z.closed', 'z.pend', 'z.hb'], ANY), (['r', 'o'], S('frame:HEADERS', 'frame:PP', 'frame:CONT', 'frame:RAW'))]},
     'C28': {'scenarios': [dict(s, hashseeds=True) for s in scen('Pair1 SetS MiscC HdrInS HdrInC', [])],
             'lens': [(ALL_PUBLIC, ANY)]},
@@ -188,7 +193,7 @@ TV = {
     'C24': tvs('s c pair', 'misc'),
     'C25': tvs('s c pair', 'upgrade', n=(16, 400)),
     'C26': tvs('s c pair', 'misc'),
-    'C27': tvs('s c', 'life push raw', max_closed=[2, 4], chaos=0.15),
+    'C27': tvs('s c', 'life push raw settings', max_closed=[2, 4], chaos=0.15),
     'C28': tvs('s c pair', 'mix', hashseeds=True),
     'C29': tvs('s c', 'mix life misc', chaos=0.4),
 }
